@@ -204,6 +204,20 @@ func runC10(r *Run) {
 				return err
 			}
 			r.S.Park("a.prog.chunk")
+			if p.seed%3 == 0 {
+				// another caller tries to write meanwhile with a short context of its
+				// own: it has to wait for this message to finish and gives up; its
+				// context bounds only that call, not the message in progress
+				ictx, icancel := context.WithTimeout(bg, []time.Duration{200 * time.Millisecond, time.Second}[p.seed%2])
+				idone := false
+				r.S.Go(fmt.Sprintf("intruder%d", i), func() {
+					_ = c.Write(ictx, websocket.MessageBinary, []byte("intruder"))
+					idone = true
+				})
+				r.S.ParkE("a.prog.intruder", func() bool { return idone }, nil)
+				icancel()
+				r.S.Count("probe.write-attempt-during-open-writer")
+			}
 			if _, err = w.Write(data[h:]); err != nil {
 				return err
 			}
